@@ -192,7 +192,7 @@ def run(tw, tier, seed, only=None):
         cases += 1
         if got != want:
             fails.append({"function": "_node_match.match", "violations": ["ensures[0]"], "keys": keys, "a1": a1, "a2": a2, "tags": {}})
-    return {"cases": cases, "nontrivial": nontriv, "failures": fails[:20], "samples": samples, "exhaustive": False, "evaluations": tw.evaluations,
+    return {"cases": cases, "nontrivial": nontriv, "failures": fails, "samples": samples, "exhaustive": False, "evaluations": tw.evaluations,
             "bound": "%d checks: all single-reaction networks over 3 species (coefficients 1; every 5th with coefficients 1..2), random pairs of them, symmetric "
                      "families, random networks up to 6 species / 5 reactions; bipartite view with and without stoichiometry and species view; all 6 species "
                      "renamings x 2 reaction orders (4 random renamings beyond 3 species); automorphisms by brute force over all node permutations (<= 7 nodes)" % cases,
